@@ -298,6 +298,17 @@ class Ctx:
 
     # ---------------- shrinking ----------------
     def _still_fails(self, cands, bin="hk"):
+        prep = getattr(self, "prepare", None)
+        if prep:
+            ok = []
+            for c in cands:
+                try:
+                    prep(c); ok.append(c)
+                except Exception:
+                    pass            # shrinking produced an ill-formed primary input: not a candidate
+            cands = ok
+        if not cands:
+            return None
         res = self.evaluate(cands, tie="shrink", bin=bin)
         for case, triple, ans in res:
             j = ans.get("judge")
